@@ -6,7 +6,7 @@ use crate::post_linter::post_conversion_linter::PostConversionLinter;
 use crate::post_linter::{
     built_in_linter, condition_type_linter, dots_linter, for_next_counter_match_linter,
     label_linter, print_linter, select_case_linter, undefined_function_reducer,
-    user_defined_function_linter, user_defined_sub_linter,
+    user_defined_function_linter, user_defined_sub_linter, whole_array_linter,
 };
 
 pub fn post_linter(
@@ -41,6 +41,10 @@ fn apply_linters(result: &Program, linter_context: &LinterContext) -> Result<(),
 
     // TODO migrate to Visitor
     let mut linter = user_defined_sub_linter::UserDefinedSubLinter { linter_context };
+    linter.visit_program(result)?;
+
+    // after the linters of the calls, so that their errors take precedence
+    let mut linter = whole_array_linter::WholeArrayLinter;
     linter.visit_program(result)?;
 
     // TODO migrate to Visitor
